@@ -204,7 +204,7 @@ def check(tier):
     k = max(1, (len(mc) + n - 1) // n)
     for i in range(0, len(mc), k):
         ck.add("massaction/%d" % (i // k), "harness.C06", "massaction_job", dict(cases=mc[i:i + k]))
-    safe = [(1, 1, -3, 3), (2, 1, -2, 2), (1, 2, -2, 2)] + ([(2, 2, -2, 2)] if tier == "thorough" else [(2, 2, -1, 1)])
+    safe = [(1, 1, -3, 3), (2, 1, -2, 2), (1, 2, -2, 2)] + ([(2, 2, -1, 1)] if tier == "thorough" else [])
     for cse in safe:
         ck.add("safe/S%dR%d" % cse[:2], "harness.C06", "safe_job", dict(cases=[cse]), max_paths=200000)
     ck.bounds = dict(species="<= 3", reactions="<= 3", time_points="<= 4", queue_slots="2..3",
